@@ -23,7 +23,8 @@ type MNode struct {
 	FH       []byte            // learned from the reply that created the object
 	Fileid   uint64
 	Alive    bool
-	Born     int // index of the operation that created it
+	Born     int  // index of the operation that created it
+	Opaque   bool // a directory whose contents the reference does not track (prefilled)
 }
 
 type Limits struct {
